@@ -160,10 +160,28 @@ type eMdFact struct {
 	name        string
 }
 
+type eIdxEntry struct{ t, off uint64 }
+type eMsgIdxFact struct {
+	ch      uint16
+	entries []eIdxEntry
+}
+type eGroupFact struct {
+	op            byte
+	start, length uint64
+}
+
 var eLast struct {
-	chunks []eChunkFact
-	atts   []eAttFact
-	mds    []eMdFact
+	chunks      []eChunkFact
+	atts        []eAttFact
+	mds         []eMdFact
+	msgIdx      [][]eMsgIdxFact // per chunk, in file order
+	chunkCRC    []uint32
+	stored      [][]byte // stored (possibly compressed) records of each chunk
+	groups      []eGroupFact
+	sumStart    uint64
+	sumOffStart uint64
+	dataCRC     uint32
+	sumCRC      uint32
 }
 
 // vSpecEncode lays the content out as the layout says and returns the file.
@@ -230,6 +248,9 @@ func vSpecEncode(c *eContent, l *eLayout) []byte {
 		compressedN, uncompressN uint64
 	}
 	var chunkInfos []chunkInfo
+	var pendMsgIdx [][]eMsgIdxFact
+	var pendCRC []uint32
+	var pendStored [][]byte
 	type attInfo struct {
 		off, length uint64
 		a           *vAtt
@@ -342,15 +363,19 @@ func vSpecEncode(c *eContent, l *eLayout) []byte {
 				x.unknown(o, 4)
 			}
 			idxStart := len(o.b)
+			var idxFacts []eMsgIdxFact
 			if l.msgIdx {
 				for _, id := range info.idxOrder {
 					var e eBuf
 					e.u16(id)
 					e.u32(uint32(16 * len(per[id])))
+					f := eMsgIdxFact{ch: id}
 					for _, en := range per[id] {
 						e.u64(en.t)
 						e.u64(en.off)
+						f.entries = append(f.entries, eIdxEntry{en.t, en.off})
 					}
+					idxFacts = append(idxFacts, f)
 					info.idxOff[id] = uint64(len(o.b))
 					x.rec(o, 0x07, e.b)
 				}
@@ -359,12 +384,16 @@ func vSpecEncode(c *eContent, l *eLayout) []byte {
 			}
 			info.idxLen = uint64(len(o.b) - idxStart)
 			chunkInfos = append(chunkInfos, info)
+			pendMsgIdx = append(pendMsgIdx, idxFacts)
+			pendCRC = append(pendCRC, crc)
+			pendStored = append(pendStored, stored)
 		}
 	}
 	if !attDone {
 		emitAttMd()
 	}
 	x.unknown(o, 8)
+	var pendDataCRC, pendSumCRC uint32
 	// DataEnd
 	{
 		var e eBuf
@@ -373,6 +402,7 @@ func vSpecEncode(c *eContent, l *eLayout) []byte {
 			crc = crc32.ChecksumIEEE(o.b)
 		}
 		e.u32(crc)
+		pendDataCRC = crc
 		x.rec(o, 0x0F, e.b)
 	}
 	sumStart := len(o.b)
@@ -524,10 +554,21 @@ func vSpecEncode(c *eContent, l *eLayout) []byte {
 			crc = crc32.ChecksumIEEE(o.b[sumStart:])
 		}
 		_ = fs
+		pendSumCRC = crc
 		o.u32(crc)
 	}
 	o.b = append(o.b, sMagic...)
 	eLast.chunks, eLast.atts, eLast.mds = nil, nil, nil
+	eLast.msgIdx, eLast.chunkCRC, eLast.stored = pendMsgIdx, pendCRC, pendStored
+	eLast.groups = nil
+	for _, g := range groups {
+		eLast.groups = append(eLast.groups, eGroupFact{g.op, g.start, g.length})
+	}
+	eLast.sumStart, eLast.sumOffStart = 0, uint64(sumOffStart)
+	if hasSummary {
+		eLast.sumStart = uint64(sumStart)
+	}
+	eLast.dataCRC, eLast.sumCRC = pendDataCRC, pendSumCRC
 	for i := range chunkInfos {
 		ci := &chunkInfos[i]
 		eLast.chunks = append(eLast.chunks, eChunkFact{ci.start, ci.length, ci.startT, ci.endT, ci.idxLen, ci.compressedN, ci.uncompressN, ci.comp, ci.idxOff})
